@@ -3,7 +3,7 @@ import re
 
 from ..core import CheckError, op_const, switches
 from ..effects import Effects
-from ..prov import sources
+from ..prov import reads_locals, sources
 
 READ_ONLY_STORE = {
     'list': 'thread listing', 'get': 'thread lookup', 'subscribe': 'live stream', 'replay_events': 'replay',
@@ -53,13 +53,18 @@ def run(ctx):
             ctx.ob('C02.1', new, 'open-mode:' + s.name, False, 'OpenOptions::%s on the truth file: only create+append keep the file append-only' % s.name, line=s.line)
     ctx.ob('C02.1', new, 'open-mode:append-present', 'append' in names, 'append(true) %s' % ('present' if 'append' in names else 'MISSING'), line=new.line)
     # the file handle handed to the writer is that OpenOptions result
-    bw = new.calls(r'^std::io::buffered::bufwriter::BufWriter::new$')
-    ctx.floor('C02.1', 'BufWriter::new in EventLog::new', len(bw), 1)
-    for s in bw:
-        src = sources(new, s.args[0])
-        ok = any(x[0] == 'call' and x[1] == 'std::fs::OpenOptions::open' for x in src) and not any(
-            x[0] == 'call' and re.search(r'File::(create|create_new|options)$', x[1]) for x in src)
-        ctx.ob('C02.1', new, 'writer-handle', ok, 'the writer wraps the handle opened with the append-only OpenOptions chain', line=s.line)
+    # whatever is stored as the log's writer (a BufWriter around the file, the file itself, ...) is that handle
+    aggs = [(bi, si, st) for (bi, si, st) in new.aggregates(r'^rip_log::EventLog$')]
+    ctx.floor('C02.1', 'EventLog constructions in EventLog::new', len(aggs), 1)
+    for (bi, si, st) in aggs:
+        rv = st['rv']
+        for fld, op in zip(rv['fields'], rv['a']):
+            if not re.search(r'File|Write', next((x['ty'] for v_ in (P.adts.get('rip_log::EventLog') or {'variants': []})['variants'] for x in v_['fields'] if x['name'] == fld), '')):
+                continue
+            rl = reads_locals(new, op)
+            ok = any(c_.dest and c_.dest['l'] in rl for c_ in new.calls(r'^std::fs::OpenOptions::open$')) and not any(
+                c_.dest and c_.dest['l'] in rl for c_ in new.calls(r'File::(create|create_new|options)$'))
+            ctx.ob('C02.1', new, 'writer-handle', ok, 'the writer (field `%s`) wraps the handle opened with the append-only OpenOptions chain' % fld, line=st.get('ln'))
     n = 0
     for f in P.find_fns(r'^rip_log::'):
         for s in f.calls(r'^std::fs::(write|rename|remove_file|copy|remove_dir_all)$|^std::fs::File::(create|create_new|set_len)$|std::io::Seek>::seek$|^std::fs::OpenOptions::(truncate|write|create_new)$'):
